@@ -46,6 +46,19 @@ def quiet():
         yield buf
 
 
+def shutdown_loky() -> None:
+    """joblib's reusable loky workers idle for 300 s before exiting and keep their parent from being reaped:
+    terminate them as soon as a worker/check is done with the code under test."""
+    try:
+        from joblib.externals.loky import reusable_executor as rex
+
+        ex = getattr(rex, "_executor", None)
+        if ex is not None:
+            ex.shutdown(wait=True, kill_workers=True)
+    except Exception:  # noqa: BLE001
+        pass
+
+
 class Check:
     """Accumulates what one run of one property check did; writes evidence; decides the exit code."""
 
